@@ -1,30 +1,27 @@
 """C05 — conflicts resolve by the documented priority / associativity / prefer-shift rules.
 
-(T) Properties/C05.v (unbounded over priorities, flags, cells): sr_cell_impl, sr_cell_spec_known,
-    sr_cell_spec_refuted, sr_cell_spec_class_differs, sr_prod_keyword, sr_term_keyword, sr_cell_general,
-    rr_cell_impl, rr_cell_spec, shift_prio_is_max, resolve_subset, resolve_no_panic_refuted,
-    resolve_no_panic_known, three_way_panics, resolve_panic_sites, state_panic_only_three_way.
-(V) Proofs.Resolve.state_wf_b (hypothesis of state_panic_only_three_way) evaluated on every state of every
-    real dump.
-(C) correspondence: grammars with conflicts (hand-written corpus, structured random BNF and E: E op E
-    families, with random priorities / associativities / nops / nopse on productions and
-    associativities / priorities on terminals) are compiled by the REAL compiler through the verif
-    hook under {LR, GLR} x {LALR, LALR_PAGER, LALR_RN} x prefer_shifts x prefer_shifts_over_empty;
-    Model.Resolve.resolve_report (the Gallina mirror of calculate_reductions, state by state, cell by
-    cell, plus max_prior_for_term) is evaluated by vm_compute on every real dump and must reproduce
-    every cell. A real compile that panics in calculate_reductions must be a panic of the model on the
-    same states (taken from the dump of the grammar with its meta-data stripped).
+(T) Properties/C05.v (unbounded over priorities, flags, cells; all full statements): sr_cell_spec,
+    sr_prod_keyword, sr_term_keyword, sr_cell_general, sr_three_way, rr_cell_impl, rr_cell_spec,
+    shift_prio_is_max, resolve_subset, resolve_no_panic, resolve_panic_sites,
+    resolve_no_panic_hypotheses_needed, state_no_panic.
+(V) Proofs.Resolve.state_wf_b (hypothesis of state_no_panic) evaluated on every state of every real dump.
+(C) correspondence: grammars with conflicts (hand-written corpus incl. the regression witnesses of the three
+    repaired defects, structured random BNF and E: E op E families, with random priorities /
+    associativities / nops / nopse on productions and associativities / priorities on terminals) are
+    compiled by the REAL compiler through the verif hook under {LR, GLR} x {LALR, LALR_PAGER, LALR_RN} x
+    prefer_shifts x prefer_shifts_over_empty; Model.Resolve.resolve_report (the Gallina mirror of
+    calculate_reductions, state by state, cell by cell, plus max_prior_for_term) is evaluated by
+    vm_compute on every real dump and must reproduce every cell. No compile may panic.
 (O) the statement itself on the real code, judged by the documented decision table (not by the model):
     Model.ResolveCheck.doc_report compares every real two-candidate cell with Spec.ResolveSpec.decide /
-    decide_rr; the keyword mapping (left = reduce, right = shift) is read off the dumped grammar; for
-    E: E op E families the real LR parser's tree of every operator string up to 9 tokens is compared
-    with the precedence / associativity reference tree.
+    decide_rr; the keyword mapping (left = reduce, right = shift) is read off the dumped grammar; the
+    number of conflicts the real get_conflicts reports equals the number of action pairs left in the
+    dumped cells; for E: E op E families the real LR parser's tree of every operator string up to 9
+    tokens is compared with the precedence / associativity reference tree (documented terminal-level
+    associativity).
 
-Genuine defects of rustemo this check reproduces on the unchanged tree (reported, never hidden):
-  three-way-assert          assert!(actions.len() == 1) in calculate_reductions (DESIGN.md §9 F5)
-  terminal-assoc-inverted   terminal-level left/reduce keeps the SHIFT, right/shift keeps the REDUCTION
-  accept-conflict-unreachable  LR: an unresolved Accept/Reduce conflict is not reported, get_conflicts
-                            hits unreachable!()"""
+Repaired defects kept as regression cases (any reappearance is a plain violation under the old key):
+  three-way-assert (a50fbd6), terminal-assoc-inverted (3487517), accept-conflict-unreachable (b2b5d41)."""
 import ast
 import itertools
 import json
@@ -157,7 +154,7 @@ def corpus():
     add("accept-vs-empty-nopse", 2, ACC, {(1, 0): "nopse"})
     add("accept-vs-empty-prio", 2, ACC, {(1, 0): "15"})
     add("accept-vs-empty-low", 2, ACC, {(1, 0): "5"})
-    # DESIGN.md §9 F5 and a sugar-free relative that panics in LR mode as well
+    # DESIGN.md §9 F5 (repaired by a50fbd6) and a sugar-free relative that used to abort in LR mode as well
     C.append(TextG("f5-three-way", "S: E;\nE: E Tp E | X | Y;\nX: Ta Tp?;\nY: Ta {15};\nterminals\nTp: '+';\nTa: 'a';\n"))
     add("three-way-lr", 3, [("E", [["E", "b", "E"], ["X"], ["Y"]]), ("X", [["a"], ["a", "b", "c"]]), ("Y", [["a"]])],
         {(2, 0): "15"})
@@ -180,8 +177,10 @@ SETTINGS = [(algo, table, ps, pse)
             for ps in (0, 1) for pse in (0, 1)]
 
 
-def strip_meta(text):
-    return re.sub(r"\{[^}]*\}", "", text)
+# corpus entries that are the witnesses of the three repaired defects
+REGRESSION_SHAPES = ["f5-three-way", "three-way-lr", "three-way-b", "expr-term-left", "expr-term-right",
+                     "expr-term-overrides-prod", "docs-if-then-else-shift", "tests-prio-assoc-term",
+                     "accept-vs-empty"]
 
 
 def make_cases(tier, seed):
@@ -197,7 +196,11 @@ def make_cases(tier, seed):
     seen = set()
     for gi, (g, src) in enumerate(gs):
         nset = 4 if src == "corpus" else 3
-        for (algo, table, ps, pse) in rng.sample(SETTINGS, nset if quick else min(2 * nset, len(SETTINGS))):
+        chosen = rng.sample(SETTINGS, nset if quick else min(2 * nset, len(SETTINGS)))
+        if src == "corpus" and g.shape in REGRESSION_SHAPES:
+            # the settings under which the repaired defects showed
+            chosen = [("LR", "LALR_PAGER", 0, 0), ("GLR", "LALR_RN", 0, 0), ("LR", "LALR", 0, 1)] + chosen
+        for (algo, table, ps, pse) in chosen:
             key = (g.key(), algo, table, ps, pse)
             if key in seen:
                 continue
@@ -261,30 +264,25 @@ def parse_answers(out):
 
 
 def eval_dumps(name, items, per_file=16):
-    """items: list of (tag, grammar_dump, table_dump, cfg string, mode) ; mode 'ok' -> four answers
-    (resolve_report, doc_report, cand_report, state_wf_b on all states), mode 'panic' -> two answers
-    (resolve_panic_site, state_wf_b on all states).
+    """items: list of (tag, grammar_dump, table_dump, cfg string); four answers per item
+    (resolve_report, doc_report, cand_report, state_wf_b on all states).
     Returns dict tag -> list of answers, or dict(error=...)."""
     files = []
     for k in range(0, len(items), per_file):
         chunk = items[k:k + per_file]
         body = [HEADER]
-        for n, (tag, gd, td, cfg, mode) in enumerate(chunk):
+        for n, (tag, gd, td, cfg) in enumerate(chunk):
             body.append("Definition g%d := %s." % (n, gl_grammar(gd)))
             body.append("Definition T%d := %s." % (n, gl_table(td)))
-            if mode == "ok":
-                body.append("Eval vm_compute in (resolve_report g%d (%s) T%d)." % (n, cfg, n))
-                body.append("Eval vm_compute in (doc_report g%d (%s) T%d)." % (n, cfg, n))
-                body.append("Eval vm_compute in (cand_report g%d T%d)." % (n, n))
-                body.append("Eval vm_compute in (forallb (state_wf_b g%d (t_rn T%d)) (t_states T%d))." % (n, n, n))
-            else:
-                body.append("Eval vm_compute in (resolve_panic_site g%d (%s) T%d)." % (n, cfg, n))
-                body.append("Eval vm_compute in (forallb (state_wf_b g%d (t_rn T%d)) (t_states T%d))." % (n, n, n))
+            body.append("Eval vm_compute in (resolve_report g%d (%s) T%d)." % (n, cfg, n))
+            body.append("Eval vm_compute in (doc_report g%d (%s) T%d)." % (n, cfg, n))
+            body.append("Eval vm_compute in (cand_report g%d T%d)." % (n, n))
+            body.append("Eval vm_compute in (forallb (state_wf_b g%d (t_rn T%d)) (t_states T%d))." % (n, n, n))
         files.append(("%s_%d" % (name, k // per_file), "\n".join(body) + "\n", chunk))
     outs = coq_eval_many([(f[0], f[1]) for f in files])
     res = {}
     for (fname, body, chunk), (ok, out) in zip(files, outs):
-        want = sum(4 if c[4] == "ok" else 2 for c in chunk)
+        want = 4 * len(chunk)
         vals = None
         if ok:
             try:
@@ -296,11 +294,8 @@ def eval_dumps(name, items, per_file=16):
             for c in chunk:
                 res[c[0]] = dict(error=out[-2000:], file=fname)
             continue
-        i = 0
-        for c in chunk:
-            n = 4 if c[4] == "ok" else 2
-            res[c[0]] = vals[i:i + n]
-            i += n
+        for i, c in enumerate(chunk):
+            res[c[0]] = vals[4 * i:4 * i + 4]
     return res
 
 
@@ -334,7 +329,8 @@ def ref_tree(tokens, g, documented=True):
     """tree prescribed by priority / associativity: an operator op1 on the stack against the operator
     op2 ahead: higher priority wins; equal: the associativity of op2's terminal if it has one,
     otherwise of op1's production; left = reduce, right = shift.
-    documented=False gives the tree of the implemented (terminal-level inverted) rule."""
+    documented=False gives the tree of the terminal-level associativity read the wrong way round
+    (the defect repaired by 3487517), only used to name a regression."""
     def decision(op1, op2):
         p1, p2 = g.prio[op1], g.prio[op2]
         if p1 > p2:
@@ -392,19 +388,26 @@ def conflict_signature(d, cfgt, st, a, ncand):
 
 def run(rep, tier, seed):
     import time
+    from math import comb
     t0 = time.time()
     cases = make_cases(tier, seed)
     ecases = make_expr_cases(tier, seed)
     results = run_cases(cases + ecases, "c05")
     rep.notes.append("timing: real compiler + LR parser runs %.1fs" % (time.time() - t0))
-    ok_items, panic_rs, stats = [], [], dict(ok=0, grammar_error=0, table_error=0, assert_panic=0, other=0)
+    ok_items, stats = [], dict(ok=0, grammar_error=0, table_error=0, panic=0, other=0)
     for r in results:
         if r.status == "OK" and r.dump is not None:
             stats["ok"] += 1
-            ok_items.append((r.case.id, r.dump, r.dump, cfg_of(r.case), "ok"))
-        elif r.status == "PANIC" and getattr(r, "stage", "") == "table" and ASSERT_MSG in r.msg:
-            stats["assert_panic"] += 1
-            panic_rs.append(r)
+            ok_items.append((r.case.id, r.dump, r.dump, cfg_of(r.case)))
+        elif r.status == "PANIC" and getattr(r, "stage", "") == "table":
+            stats["panic"] += 1
+            if ASSERT_MSG in r.msg:
+                rep.violation("three-way-assert",
+                              "calculate_reductions aborts the compiler: assert!(actions.len() == 1) (regression of "
+                              "a50fbd6; Coq: resolve_no_panic / state_no_panic no longer describe the code)",
+                              dict(base_of(r), message=r.msg))
+            else:
+                rep.violation("table-panic", "the table construction panicked", dict(base_of(r), message=r.msg))
         elif r.status == "ERROR" and getattr(r, "stage", "") == "grammar":
             stats["grammar_error"] += 1
         elif r.status == "ERROR":
@@ -413,31 +416,18 @@ def run(rep, tier, seed):
             stats["other"] += 1
             rep.notes.append("compiler %s on case %s (outside calculate_reductions): %s" % (
                 r.status, r.case.id, r.msg[:120]))
-            if r.status == "PANIC" and getattr(r, "stage", "") == "table":
-                rep.violation("table-panic-other", "the table construction panicked outside the known assert",
-                              dict(base_of(r), message=r.msg))
-
-    # --- real panics: the states come from the same grammar text with the meta-data stripped
-    stripped = run_cases([Case(r.case.id + "_s", strip_meta(r.case.grammar), [], algo=r.case.algo, table=r.case.table,
-                               run="NONE", flags=r.case.flags) for r in panic_rs], "c05s") if panic_rs else []
-    panic_items = []
-    for r, s in zip(panic_rs, stripped):
-        if s.status == "OK" and s.dump is not None and r.dump is not None and len(s.dump.prods) == len(r.dump.prods):
-            panic_items.append((r.case.id, r.dump, s.dump, cfg_of(r.case), "panic"))
-        else:
-            rep.violation("corr-panic", "cannot obtain the states of a grammar whose compile panicked",
-                          dict(base_of(r), stripped_status=s.status, message=s.msg), found_input=False)
 
     t1 = time.time()
-    ev = eval_dumps("c05", ok_items + panic_items)
-    rep.notes.append("timing: coq evaluation of %d dumps %.1fs" % (len(ok_items) + len(panic_items), time.time() - t1))
+    ev = eval_dumps("c05", ok_items)
+    rep.notes.append("timing: coq evaluation of %d dumps %.1fs" % (len(ok_items), time.time() - t1))
 
-    n_states = n_cells = n_conflict_cells = n_sr_doc = n_rr_doc = n_three = 0
+    n_states = n_cells = n_conflict_cells = n_sr_doc = n_rr_doc = n_three = n_pairs = 0
     sigs = set()
     samples = []
     byid = {r.case.id: r for r in results}
     model_ok = 0
-    for tag, gd, td, cfg, mode in ok_items:
+    regress_ok = {}
+    for tag, gd, td, cfg in ok_items:
         r = byid[tag]
         e = ev.get(tag)
         base = base_of(r)
@@ -450,7 +440,7 @@ def run(rep, tier, seed):
         good = True
         if not wf:
             good = False
-            rep.violation("state-wf", "state_wf_b is false on a real dump (state_panic_only_three_way does not apply)",
+            rep.violation("state-wf", "state_wf_b is false on a real dump (state_no_panic does not apply)",
                           dict(base, obligation="Proofs.Resolve.state_wf_b"), found_input=False)
         for si, code in enumerate(report):
             n_states += 1
@@ -478,20 +468,15 @@ def run(rep, tier, seed):
                                                 d.states[si], a, nc))
                 if nc >= 3:
                     n_three += 1
-                if code in (1, 2, 3):
+                if code in (1, 3):
                     n_sr_doc += 1
                 if code in (5, 6):
                     n_rr_doc += 1
-                if code == 2:
-                    rep.violation("terminal-assoc-inverted",
-                                  "terminal-level associativity is applied the wrong way round: left/reduce keeps the "
-                                  "shift, right/shift keeps the reduction (table/mod.rs:817-832)",
+                if code == 3:
+                    key = "terminal-assoc-inverted" if d.terms[a]["assoc"] != "N" else "sr-doc-mismatch"
+                    rep.violation(key, "a shift/reduce conflict is not resolved as the documented rules prescribe",
                                   dict(base, state=si, terminal=a, terminal_name=d.terms[a]["name"],
-                                       terminal_assoc=d.terms[a]["assoc"], real_cell=d.states[si]["actions"].get(a, [])))
-                elif code == 3:
-                    rep.violation("sr-doc-mismatch",
-                                  "a shift/reduce conflict is not resolved as the documented rules prescribe",
-                                  dict(base, state=si, terminal=a, items=d.states[si]["items"],
+                                       terminal_assoc=d.terms[a]["assoc"], items=d.states[si]["items"],
                                        real_cell=d.states[si]["actions"].get(a, []), maxprio=d.states[si]["maxprio"]))
                 elif code == 6:
                     rep.violation("rr-doc-mismatch",
@@ -501,48 +486,38 @@ def run(rep, tier, seed):
                 elif code == 4:
                     rep.violation("coq-eval", "doc_cell_code: lookup failure on a real dump", dict(base, state=si, terminal=a),
                                   found_input=False)
-        # LR: unresolved conflicts must be REPORTED; get_conflicts panics on Accept/Reduce pairs
-        if d.conflicts == "PANIC" and r.case.algo == "LR":
+        # unresolved conflicts must be REPORTED: get_conflicts lists every pair of actions left in a cell
+        pairs = sum(comb(len(c), 2) for st in d.states for c in st["actions"].values())
+        n_pairs += pairs
+        if d.conflicts == "PANIC":
             rep.violation("accept-conflict-unreachable",
-                          "LR: an unresolved Accept/Reduce conflict is not reported, LRTable::get_conflicts hits "
-                          "unreachable!() (table/mod.rs:1031)", base)
+                          "an unresolved conflict is not reported: LRTable::get_conflicts panics (regression of b2b5d41)",
+                          base)
+        elif d.conflicts != pairs:
+            rep.violation("conflicts-reported", "get_conflicts reports %s conflicts, the dumped cells hold %d pairs of "
+                                                "actions" % (d.conflicts, pairs), base)
         g = r.case.meta.get("g")
         if g is not None:
             km = keyword_mismatch(g, d)
             if km:
                 rep.violation("keyword-mapping", "meta-data keywords are not mapped as documented "
                                                  "(left = reduce, right = shift, nops, nopse, priority)", dict(base, **km))
+        if r.case.meta.get("src") == "corpus" and r.case.meta["shape"] in REGRESSION_SHAPES:
+            regress_ok[r.case.meta["shape"]] = regress_ok.get(r.case.meta["shape"], 0) + (1 if good else 0)
         if len(samples) < 5 and any(c >= 2 for row in cand for c in row) and \
                 r.case.meta["shape"] not in [s["shape"] for s in samples]:
             samples.append(dict(shape=r.case.meta["shape"], grammar=r.case.grammar, algo=r.case.algo, table=r.case.table,
                                 flags=r.case.flags, conflicts_left=d.conflicts,
                                 cells=[(si, a, d.states[si]["actions"].get(a, [])) for si, row in enumerate(cand)
                                        for a, c in enumerate(row) if c >= 2][:6]))
-    n_panic_ok = 0
-    for tag, gd, td, cfg, mode in panic_items:
-        r = byid[tag]
-        e = ev.get(tag)
-        base = base_of(r)
-        if e is None or isinstance(e, dict):
-            rep.violation("coq-eval", "Coq evaluation of the case failed", dict(base, err=(e or {}).get("error")),
-                          found_input=False)
-            continue
-        site = e[0]
-        if not e[1]:
-            rep.violation("state-wf", "state_wf_b is false on a real dump (state_panic_only_three_way does not apply)",
-                          dict(base, obligation="Proofs.Resolve.state_wf_b"), found_input=False)
-        if site in (821, 851):
-            n_panic_ok += 1
-            rep.violation("three-way-assert",
-                          "calculate_reductions aborts the compiler: assert!(actions.len() == 1) (table/mod.rs:%d) when a "
-                          "reduction wins against a Shift in a cell that already holds another reduction" % site,
-                          dict(base, message=r.msg, model_site=site))
-        else:
-            rep.violation("corr-panic", "the real compiler panicked in calculate_reductions, the model does not "
-                                        "(site %d)" % site, dict(base, message=r.msg, model_site=site), found_input=False)
+    # the regression witnesses must have been compiled and reproduced
+    for shape in REGRESSION_SHAPES:
+        if not regress_ok.get(shape):
+            rep.violation("regression-missing", "a regression witness of a repaired defect was not compiled and "
+                                                "reproduced by the model", dict(shape=shape), found_input=False)
 
     # --- operator grammars: real LR parser tree against the precedence / associativity tree
-    n_strings = n_trees_ok = n_expr = n_inverted = 0
+    n_strings = n_trees_ok = n_expr = n_term_level = 0
     for r in results[len(cases):]:
         g = r.case.meta["g"]
         if r.status != "OK" or r.dump is None:
@@ -554,7 +529,8 @@ def run(rep, tier, seed):
                                             "still has conflicts", dict(base_of(r), conflicts=r.dump.conflicts))
             continue
         n_expr += 1
-        bad_doc = None
+        if g.tassoc:
+            n_term_level += 1
         for i, w in enumerate(r.case.meta["words"]):
             out = r.results.get(("LR", i), "")
             n_strings += 1
@@ -563,52 +539,42 @@ def run(rep, tier, seed):
                               dict(base_of(r), input=GR.render(w), real=out[:300]))
                 break
             real = real_shape(parse_sexp(out.split(" ", 1)[1]))
-            doc, impl = ref_tree(w, g, True), ref_tree(w, g, False)
+            doc = ref_tree(w, g, True)
             if real == doc:
                 n_trees_ok += 1
                 continue
-            if real == impl and g.tassoc:
-                if bad_doc is None:
-                    bad_doc = (w, real, doc)
-                continue
-            rep.violation("expr-tree", "the real LR parser's tree is not the one priority and associativity prescribe",
+            key = "terminal-assoc-inverted" if (g.tassoc and real == ref_tree(w, g, False)) else "expr-tree"
+            rep.violation(key, "the real LR parser's tree is not the one priority and associativity prescribe",
                           dict(base_of(r), input=GR.render(w), real=show(real), expected=show(doc)))
             break
-        if bad_doc is not None:
-            n_inverted += 1
-            w, real, doc = bad_doc
-            rep.violation("terminal-assoc-inverted",
-                          "terminal-level associativity is applied the wrong way round: left/reduce keeps the "
-                          "shift, right/shift keeps the reduction (table/mod.rs:817-832)",
-                          dict(base_of(r), input=GR.render(w), real=show(real), documented=show(doc)))
 
     pt = rep.theorems or {}
     nthm = len(pt.get("theorems", []))
-    n_dumps = len(ok_items) + len(panic_items)
+    n_dumps = len(ok_items)
     rep.coverage = dict(
         obligations=nthm + n_dumps,
-        discharged=(pt.get("closed", 0) if not rep.violations else 0) + model_ok + n_panic_ok,
+        discharged=(pt.get("closed", 0) if not rep.violations else 0) + model_ok,
         checker_cmd="make -C coq Properties/C05.vo ; coqc work/c05_*.v (vm_compute of resolve_report / doc_report / "
-                    "resolve_panic_site on the printed real dumps)",
+                    "state_wf_b on the printed real dumps)",
         trusted_base=TRUSTED_BASE, theorems=pt.get("theorems", []),
         programs=n_dumps, evaluations=n_conflict_cells + n_strings, distinct_nontrivial=len(sigs),
-        rule="grammars: hand-written conflict corpus + structured random BNF + E: E op E families, random priority / "
-             "left / right / reduce / shift / nops / nopse on productions and associativity / priority on terminals; "
-             "settings sampled from {LR,GLR} x {LALR,LALR_PAGER,LALR_RN} x prefer_shifts x prefer_shifts_over_empty; "
-             "every state and cell of every real dump is recomputed by the model (evaluations counts the cells with "
-             ">= 2 candidate actions plus the operator strings parsed by the real LR parser); non-trivial = distinct "
-             "(number of candidates, algo/ps/pse, kinds of surviving actions) conflict classes",
+        rule="grammars: hand-written conflict corpus (incl. regression witnesses) + structured random BNF + E: E op E "
+             "families, random priority / left / right / reduce / shift / nops / nopse on productions and associativity / "
+             "priority on terminals; settings sampled from {LR,GLR} x {LALR,LALR_PAGER,LALR_RN} x prefer_shifts x "
+             "prefer_shifts_over_empty; every state and cell of every real dump is recomputed by the model "
+             "(evaluations counts the cells with >= 2 candidate actions plus the operator strings parsed by the real "
+             "LR parser); non-trivial = distinct (number of candidates, algo/ps/pse, kinds of surviving actions) "
+             "conflict classes",
         cases_generated=len(cases) + len(ecases), compile_outcomes=stats,
-        dumps_reproduced_by_model=model_ok, real_assert_panics=len(panic_rs), real_assert_panics_reproduced=n_panic_ok,
+        dumps_reproduced_by_model=model_ok, regression_witnesses=regress_ok,
         states=n_states, cells=n_cells, conflict_cells=n_conflict_cells, three_way_cells=n_three,
         sr_cells_judged_by_decide=n_sr_doc, rr_cells_judged_by_decide_rr=n_rr_doc,
-        expr_grammars=n_expr, operator_strings=n_strings, operator_trees_as_documented=n_trees_ok,
-        expr_grammars_with_inverted_terminal_assoc=n_inverted, samples=samples)
+        conflict_pairs_reported_by_get_conflicts=n_pairs,
+        expr_grammars=n_expr, expr_grammars_with_terminal_level_assoc=n_term_level,
+        operator_strings=n_strings, operator_trees_as_documented=n_trees_ok, samples=samples)
     rep.assumptions = [
         "the states, items and lookaheads are taken from the real dump (their construction is C01/C04's subject); only "
         "the Shift target of a cell is read off the real final cell",
-        "for a compile that panicked the states come from the dump of the same grammar text without meta-data "
-        "(states do not depend on priorities / associativities); priorities come from the dumped annotated grammar",
         "operator corollary: token-level, one-letter string terminals separated by single spaces; on equal priority with "
         "different associativities the production being reduced (the left operator) decides, as the rules say"]
 
@@ -622,21 +588,16 @@ def replay(rep, path):
     print("real   : compile %s %s %s" % (r.status, getattr(r, "stage", ""), r.msg[:200]))
     if p.get("input") is not None:
         print("real   : parse  ", r.results.get(("LR", 0)))
-    dump_t = r.dump
-    mode = "ok"
-    if r.status == "PANIC":
-        s = run_cases([Case("replay_s", strip_meta(p["grammar"]), [], algo=c.algo, table=c.table, run="NONE",
-                            flags=c.flags)], "c05replays", shards=1)[0]
-        dump_t, mode = s.dump, "panic"
-    if r.dump is not None and dump_t is not None and dump_t.states:
-        ev = eval_dumps("c05replay", [("r", r.dump, dump_t, cfg_of(c), mode)], per_file=1)
+    if r.dump is not None and r.dump.states:
+        ev = eval_dumps("c05replay", [("r", r.dump, r.dump, cfg_of(c))], per_file=1)
         e = ev.get("r")
-        if mode == "ok" and not isinstance(e, dict):
+        if not isinstance(e, dict):
+            print("real   : conflicts reported by get_conflicts =", r.dump.conflicts)
             print("checker: state_wf_b on all states =", e[3])
             print("model  : resolve_report (0 = state reproduced)", e[0])
-            print("oracle : doc_report (1/5 = as documented, 2 = terminal-assoc class, 3/6 = differs)", e[1])
+            print("oracle : doc_report (1/5 = as documented, 3/6 = differs)", e[1])
             if "state" in p:
                 print("real cells of state %d: %s" % (p["state"], r.dump.states[p["state"]]["actions"]))
         else:
-            print("model  : resolve_panic_site =", e)
+            print("model  : coq evaluation failed", e)
     rep.coverage = dict(obligations=1, discharged=1, checker_cmd="replay", trusted_base=[])
